@@ -51,7 +51,7 @@ impl<T> Scheduler<T> {
         Ok(index)
 //@ endslice
 
-//@ slice src/sources/futures.rs / impl Scheduler<T> / fn schedule :: stmts <<active_tasks.insert(Active::Future(runnable.waker()));>> .. <<task.detach();>> props=C10 name=Scheduler::schedule::tail
+//@ slice src/sources/futures.rs / impl Scheduler<T> / fn schedule :: stmts <<active_tasks.insert(>> .. <<task.detach();>> props=C10 name=Scheduler::schedule::tail
 //@ rw R10 1 <<drop(active_guard);>> => <<;>>
 //@ sig
     /// S1 slice of Scheduler::schedule: its last four statements. `active_tasks` (the table borrowed through the guard),
